@@ -117,7 +117,9 @@ pub fn child(args: &[String]) -> i32 {
         }
         let reqs = arr(&sc, "workload").clone();
         let concurrent = sc.get("concurrent").and_then(|c| c.as_bool()).unwrap_or(false);
+        let shorts: std::collections::BTreeMap<String, String> = short_names(&peer).await;
         let run_one = |rq: Value| {
+            let shorts = shorts.clone();
             let peer_db = peer.db.clone();
             let rid = rid.clone();
             let base = base.clone();
@@ -132,6 +134,47 @@ pub fn child(args: &[String]) -> i32 {
                     "unref" => peer_db.delete("delete { v.A { $id ra[$to] } }", params(&[("id", base["b1"].clone()), ("to", base["b2"].clone())])).await.map(|_| ()).map_err(|e| e.to_string()),
                     "room" => peer_db.mutate("mutate { sys.Room { admin: [{verif_key:$k}] authorisations:[{ name:\"x\" rights:[{entity:\"*\" mutate_self:true mutate_all:true}] }] } }",
                         params(&[("k", s(&rq, "key"))])).await.map(|_| ()).map_err(|e| e.to_string()),
+                    // a synchronised batch: two rows signed by an authorised author, through the ingestion entry points
+                    "ingest2" => {
+                        let sk = crate::scen::signing_key_of("u1");
+                        let now = vh::date_utils::now();
+                        let mut set = std::collections::HashSet::new();
+                        let mut nodes = Vec::new();
+                        for (ent, text) in [("v.A", s(&rq, "t1")), ("v.B", s(&rq, "t2"))] {
+                            let mut n = vh::database::node::Node { id: vh::security::new_uid(), room_id: Some(room), cdate: now, mdate: now, _entity: shorts[ent].clone(),
+                                _json: Some(format!("{{\"32\":\"{}\"}}", text)), _binary: None, verifying_key: vec![], _signature: vec![], _local_id: None };
+                            n.sign(&sk).expect("sign");
+                            set.insert(vh::database::node::NodeIdentifier { id: n.id, mdate: n.mdate, signature: n._signature.clone() });
+                            nodes.push(n);
+                        }
+                        match peer_db.filter_existing_node(room, set).await {
+                            Ok(filtered) => {
+                                let mut ntis = Vec::new();
+                                for mut nti in filtered {
+                                    if let Some(n) = nodes.iter().find(|n| n.id == nti.id) {
+                                        nti.node = Some(n.clone());
+                                    }
+                                    ntis.push(nti);
+                                }
+                                peer_db.add_nodes(room, ntis).await.map(|_| ()).map_err(|e| e.to_string())
+                            }
+                            Err(e) => Err(e.to_string()),
+                        }
+                    }
+                    // a synchronised deletion: the deletion record of a base row, as a peer would send it
+                    "ingestdel" => {
+                        let sk = crate::scen::signing_key_of("u1");
+                        let idb = vh::security::uid_decode(&base[&s(&rq, "row")]).expect("uid");
+                        let mut rcv = peer_db.get_nodes(room, vec![idb]).await;
+                        match rcv.recv().await.unwrap_or(Ok(vec![])) {
+                            Ok(ns) if !ns.is_empty() => {
+                                let entry = vh::database::node::NodeDeletionEntry::build(room, &ns[0], vh::date_utils::now(), &sk);
+                                peer_db.delete_nodes(vec![entry]).await.map_err(|e| e.to_string())
+                            }
+                            Ok(_) => Err("row not found".to_string()),
+                            Err(e) => Err(e.to_string()),
+                        }
+                    }
                     "compute" => { peer_db.compute_daily_log().await; Ok(()) }
                     other => Err(format!("unknown request {other}")),
                 };
